@@ -370,10 +370,30 @@ def r2(ctx, repo):
     tm = tres.calls("_update_y_X", kind=("inline",))
     ctx.check(bool(tm) and tres.unconditional(tm[0]) and tm[0].bound.get("y") == P("y"), "R2", CT + ":merge",
               "delegates the merge to the base update", "the new data is not merged on every path", ctx.loc(tcls.module, tfn))
-    trend = [e for e in tres.calls("_compute_trend", kind=("call", "inline"))]
-    if len(trend) != 1:
-        ctx.undecided("R2", CT + ":trend-data", "expected one _compute_trend call, found %d" % len(trend), ctx.loc(tcls.module, tfn))
+    # with update_params=False the fitted parameters stay: no refit may be reachable for update_params=False
+    tfits = [e for e in tres.calls("fit", kind=("call",)) if e.target.kind in ("method", "super")]
+    refit_on = [guard_taken(tres, [(c, p) for c, p, _ in tres.facts(e)], P("update_params")) for e in tfits]
+    if any(t[1] is True for t in refit_on):
+        bad = tfits[[t[1] is True for t in refit_on].index(True)]
+        ctx.violation("R2", CT + ":refit-guarded", "update(y, update_params=False) refits the whole model: the inherited update is entered with "
+                      "update_params fixed to True, so its refit-by-default branch runs whatever the caller asked for", loc_of(bad),
+                      witness={"history": "fit(y1); update(y2, update_params=False): smoothing level, seasonal component and trend all change"})
+    elif any(t[1] is None for t in refit_on):
+        ctx.undecided("R2", CT + ":refit-guarded", "cannot decide whether a refit is reachable with update_params=False", loc_of(tfits[0]))
     else:
+        ctx.ok("R2", CT + ":refit-guarded", "no refit is reachable with update_params=False", ctx.loc(tcls.module, tfn))
+    trend = [e for e in tres.calls("_compute_trend", kind=("call", "inline"))]
+    if not trend and not any(t[0] is True for t in refit_on) and not tres.stores("trend_"):
+        fit_sets = "trend_" in {s_.attr for s_ in analysed(ctx, Prov(repo, no_inline=("_compute_trend",)).run_method(tcls, "fit")).stores()}
+        ctx.check(False if fit_sets else None, "R2", CT + ":trend-re-estimated", "",
+                  "update(y, update_params=True) neither refits nor re-estimates `trend_` (fit derives it from the data): the drift added to every later "
+                  "forecast stays that of the first fit", ctx.loc(tcls.module, tfn),
+                  witness={"history": "fit(y1); update(y2) with a changed slope: forecasts keep the old drift"})
+    else:
+        ctx.ok("R2", CT + ":trend-re-estimated", "update(update_params=True) re-estimates the trend (or refits)", ctx.loc(tcls.module, tfn))
+    if trend and len(trend) != 1:
+        ctx.undecided("R2", CT + ":trend-data", "expected one _compute_trend call, found %d" % len(trend), ctx.loc(tcls.module, tfn))
+    elif trend:
         te = trend[0]
         arg = (te.bound or {}).get("y") if te.bound else (te.args[0] if te.args else None)
         bad, unknown, rest = [], [], set()
@@ -648,6 +668,14 @@ def r3(ctx, repo):
             if isinstance(v_, tuple) and v_[0] == "item" and v_[1] == ("getattr", frame, "iloc"):
                 single = None
                 for cond, pol, origin in fres.facts(r_):
+                    for side in (cond[2], cond[3]) if isinstance(cond, tuple) and cond[0] == "cmp" else ():
+                        if isinstance(side, tuple) and side[0] == "item" and side[1] == ("getattr", frame, "shape") and is_const(side[2]) \
+                                and side[2][1] not in (1, -1):
+                            ctx.violation("R3", C + ":single-window-test-axis", "the single-window shortcut tests shape[%r] (the steps) instead of the "
+                                          "number of windows shape[1]: for one window and a multi-step horizon update_predict returns a one-column "
+                                          "frame where the single update+predict (and the unmodified code) return a series" % (side[2][1],), loc_of(r_),
+                                          witness={"history": "update_predict(y, cv) with exactly one window, fh=[1, 2]"})
+                            single = True
                     if isinstance(cond, tuple) and cond[0] == "cmp" and ncols in (cond[2], cond[3]) and cond[1] in ("Eq", "NotEq"):
                         k_ = cond[3] if cond[2] == ncols else cond[2]
                         if k_ == ("const", 1):
